@@ -441,7 +441,7 @@ Record astate := mkast {
   acs : list (nat * acall);          (* association list call -> bookkeeping *)
   started : N; returned : N;
   recvd : list N;                    (* ids the peer has read *)
-  sends : list (N * N * bool);       (* (id, payload, was a call with this id inside doInvoke when it was sent?) *)
+  sends : list (N * N);              (* (id, payload) of every packet the peer sent so far *)
   errored : list N }.                (* ids of calls that returned an error *)
 
 Definition aget (a : astate) (c : nat) : acall :=
@@ -450,8 +450,6 @@ Definition aset (a : astate) (c : nat) (k : acall) : list (nat * acall) :=
   (c, k) :: filter (fun x => negb (Nat.eqb (fst x) c)) (acs a).
 Definition id_used (a : astate) (id : N) : bool :=
   existsb (fun x => match ph (snd x) with PhNone | PhStarted => false | _ => aid (snd x) =? id end) (acs a).
-Definition id_live (a : astate) (id : N) : bool :=
-  existsb (fun x => match ph (snd x) with PhPre => aid (snd x) =? id | _ => false end) (acs a).
 Definition memN (x : N) (l : list N) : bool := existsb (N.eqb x) l.
 
 Definition astep (a : astate) (e : event) : option astate :=
@@ -476,7 +474,7 @@ Definition astep (a : astate) (e : event) : option astate :=
           let ub := started a - retd_at_post k - 1 in
           let okc := (q <=? ub) && (n <=? ub) && (p <=? ub) in
           let oko := match o with
-                     | OReply => existsb (fun x => let '(i, py, live) := x in (i =? aid k) && (py =? pay) && live) (sends a)
+                     | OReply => existsb (fun x => let '(i, py) := x in (i =? aid k) && (py =? pay)) (sends a)
                      | OTimeout => true
                      | OError => negb (memN (aid k) (recvd a))
                      | OSent => true
@@ -494,7 +492,7 @@ Definition astep (a : astate) (e : event) : option astate :=
       then Some (mkast (acs a) (started a) (returned a) (id :: recvd a) (sends a) (errored a))
       else None
   | EPeerSend id pay =>
-      Some (mkast (acs a) (started a) (returned a) (recvd a) ((id, pay, id_live a id) :: sends a) (errored a))
+      Some (mkast (acs a) (started a) (returned a) (recvd a) ((id, pay) :: sends a) (errored a))
   end.
 
 Fixpoint arun (a : astate) (es : list event) : option astate :=
@@ -507,6 +505,33 @@ Definition accepts (es : list event) : bool :=
   | None => false
   end.
 
+(* ---------- the model's own runs, seen through the same observation points ----------
+   pre-filter = just before doInvoke registers (LReg / LQueueFull), post-filter = after the deferred cleanup (LClean, or
+   LQueueFull which has none), return = LPost with the counters as they are then, peer receive = the sender's write,
+   peer send = LPeerPkt *)
+Definition events_of (s : state) (l : label) (s' : state) : list event :=
+  match l with
+  | Start _ _ => [EStart (length (calls s))]
+  | LReg i => [EPre i (id_of i)]
+  | LQueueFull i => [EPre i (id_of i); EPost i]
+  | LClean i => [EPost i]
+  | LPost i => match nth_error (calls s') i with
+               | Some k => [ERet i (cls_of (k_out k)) (match k_out k with Some (Reply p) => p | _ => 0 end)
+                              (Z.to_N (queueLen s')) (Z.to_N (invokeNum s')) (N.of_nat (length (resp s')))]
+               | None => [] end
+  | LSendTake => match sendq s with i :: _ => [EPeerRecv (id_of i)] | [] => [] end
+  | LPeerPkt id pay => [EPeerSend id pay]
+  | _ => []
+  end.
+Fixpoint project (c : cfg) (s : state) (ls : list label) : list event :=
+  match ls with
+  | [] => []
+  | l :: r => match step c s l with Some s' => events_of s l s' ++ project c s' r | None => [] end
+  end.
+(* the canonical run of a script, projected, is accepted by the specification machine *)
+Definition model_trace_ok (sc : scen) : bool :=
+  let '(_, ls, _) := canonical sc in accepts (project (sc_cfg sc) init (rev ls)).
+
 (* ---------- a correspondence case ---------- *)
 Record c09case := mkcase {
   cc_cfg : cfg; cc_conn : connmode; cc_acts : list act; cc_callers : nat; cc_calls : nat; cc_eff : N; cc_gap : N;
@@ -514,7 +539,7 @@ Record c09case := mkcase {
 
 Definition c09_check (x : c09case) : bool :=
   let sc := mkscen (cc_cfg x) (cc_conn x) (cc_acts x) (cc_callers x) (cc_calls x) (cc_eff x) (cc_gap x) (cc_oneway x) (cc_prime x) in
-  (if cc_predict x then predicted sc (cc_obs x) else true)
+  (if cc_predict x then predicted sc (cc_obs x) && model_trace_ok sc else true)
   && accepts (cc_events x)
   && (let '(q, n, p) := cc_final x in (q =? 0) && (n =? 0) && (p =? 0)).
 
